@@ -379,7 +379,12 @@ fn scenario_inner(lab: &mut RelayLab, case: &Case) -> CheckResult {
             independent_fin: case.strict || is_bad,
             closes_first: case.backend_closes_first,
             // bytes the backend will have seen once everything the client sends arrived
-            expect_from_client: case.c2b_len,
+            expect_from_client: case.c2b_len
+                + match case.mode {
+                    1 => 28, // the send-mode header for an IPv4 loopback client
+                    3 => incoming_header(case, "127.0.0.1:1".parse().unwrap()).0.len(),
+                    _ => 0,
+                },
             expect_at_client: case.b2c_len,
             deadline_s,
         };
